@@ -76,13 +76,16 @@ func (my *taskCallback) runTaskOnce(ctx context.Context) {
 		select {
 		case <-ctx1.Done(): // 代码走到这里的时候, 一定是超时了, 外面的runTaskOnce()主体逻辑一定执行完成了, 因此不设置my.result
 		default:
+			verifYield(1)
 			my.result, my.err = result, err
 		}
 	})
 
+	verifYield(3)
 	select {
 	case <-doneChan:
 	case <-ctx1.Done():
+		verifYield(2)
 		my.result, my.err = nil, context.DeadlineExceeded
 	}
 }
